@@ -556,7 +556,7 @@ func C18(r *vf.Run) {
 			a := acts[i]
 			g := vf.NewRng(seed ^ uint64(i+1)*0x9E3779B97F4A7C15)
 			st := genState(g)
-			st.E, st.K, st.PC, st.S = false, byte(1+i%100), 0x8000, 0x01FF
+			st.E, st.K, st.PC, st.S = false, byte(1+i%8), 0x8000, 0x01FF // (several CPUs run at the same addresses)
 			st.P &^= 0x08
 			img := mem.New(g.U64())
 			k := uint32(st.K) << 16
@@ -574,10 +574,21 @@ func C18(r *vf.Run) {
 			c := &a.c
 			a.hits = [2]int{}
 			first := true
-			c.OnPC = map[uint32]func(){}
+			// half of the hosts register into whatever map the CPU already has (allocating one only if
+			// there is none), the others bring their own
+			if i%2 == 1 || c.OnPC == nil {
+				c.OnPC = map[uint32]func(){}
+			}
+			var mine []uint32
+			defer func() {
+				for _, at := range mine {
+					delete(c.OnPC, at)
+				}
+			}()
 			for h := 0; h < 2; h++ {
 				h := h
 				at := k | uint32(0x8000+g.Intn(sled))
+				mine = append(mine, at)
 				c.OnPC[at] = func() {
 					a.hits[h]++
 					c.RAl ^= byte(0x11 * (h + 1))
@@ -602,7 +613,6 @@ func C18(r *vf.Run) {
 					break
 				}
 			}
-			c.OnPC = nil
 			d = mixState(d, absPrim(c))
 			d = mixU64(d, c.AllCycles)
 			d = mixU64(d, uint64(a.hits[0])<<32|uint64(a.hits[1]))
